@@ -164,6 +164,12 @@ func (p cfgPath) Has(cfg *Config, opt *options) (bool, Error) {
 func (p cfgPath) GetValue(cfg *Config, opt *options) (value, Error) {
 	fields := p.fields
 
+	// the error for a missing element names the path from cfg down to that
+	// element, not just the element's own name
+	upTo := func(n int) string {
+		return cfgPath{fields: p.fields[:n], sep: p.sep}.String()
+	}
+
 	cur := value(cfgSub{cfg})
 	for ; len(fields) > 1; fields = fields[1:] {
 		field := fields[0]
@@ -173,7 +179,7 @@ func (p cfgPath) GetValue(cfg *Config, opt *options) (value, Error) {
 		}
 
 		if next == nil {
-			return nil, raiseMissing(cfg, field.String())
+			return nil, raiseMissing(cfg, upTo(len(p.fields)-len(fields)+1))
 		}
 
 		cur = next
@@ -182,7 +188,7 @@ func (p cfgPath) GetValue(cfg *Config, opt *options) (value, Error) {
 	field := fields[0]
 	v, err := field.GetValue(opt, cur)
 	if err != nil {
-		return nil, raiseMissing(cfg, field.String())
+		return nil, raiseMissing(cfg, upTo(len(p.fields)))
 	}
 	return v, nil
 }
